@@ -14,6 +14,7 @@ what A's object-level entry point saw, and after every writing operation the two
 """
 import copy
 import itertools
+from collections.abc import Mapping
 import random
 import traceback
 import warnings
@@ -210,8 +211,9 @@ def with_path(inst, path):
 
 
 def assoc_inst(left, right, note='n'):
-    return CIMInstance('C04_Assoc', properties=[CIMProperty('Left', left, reference_class='C04_Base'),
-                                                CIMProperty('Right', right, reference_class='C04_Other'),
+    return CIMInstance('C04_Assoc', properties=[CIMProperty('Left', left, type='reference', reference_class='C04_Base'),
+                                                CIMProperty('Right', right, type='reference',
+                                                            reference_class='C04_Other'),
                                                 CIMProperty('Note', note, type='string')])
 
 
@@ -236,7 +238,10 @@ def initial_instances(ns):
     return out
 
 
-def build(default_ns):
+TEMPLATES = {}
+
+
+def compile_template(default_ns):
     conn = FakedWBEMConnection(default_namespace=default_ns)
     for ns in NSS:
         if ns.lower() != default_ns.lower():
@@ -246,9 +251,37 @@ def build(default_ns):
         conn.compile_mof_string(QUALIFIER_MOF, namespace=ns)
         if ns != 'third':       # 'third' has qualifier declarations only: INVALID_CLASS there
             conn.compile_mof_string(mof, namespace=ns)
-    conn.register_provider(EchoProvider(conn.cimrepository), namespaces=NSS[:2])
     for ns in NSS[:2]:
         conn.add_cimobjects(initial_instances(ns), namespace=ns)
+        # the mock compares CIMParameter.embedded_object of an input parameter with the declaration; the MOF compiler
+        # leaves it None on parameter declarations, so it is set here from the EmbeddedInstance/EmbeddedObject qualifier
+        store = conn.cimrepository.get_class_store(ns)
+        for cn in ('C04_Sub', 'C04_Leaf'):
+            klass = store.get(cn, copy=False)
+            for prm in klass.methods['Echo'].parameters.values():
+                if 'EmbeddedInstance' in prm.qualifiers:
+                    prm.embedded_object = 'instance'
+                elif 'EmbeddedObject' in prm.qualifiers:
+                    prm.embedded_object = 'object'
+    return conn
+
+
+def build(default_ns):
+    """a repository with the generated content; the MOF is compiled once per default namespace, further
+    repositories are filled through the object store API from that template (create() stores deep copies)"""
+    if default_ns not in TEMPLATES:
+        TEMPLATES[default_ns] = compile_template(default_ns)
+    tmpl = TEMPLATES[default_ns].cimrepository
+    conn = FakedWBEMConnection(default_namespace=default_ns)
+    for ns in NSS:
+        if ns.lower() != default_ns.lower():
+            conn.add_namespace(ns)
+        for what in ('qualifier', 'class', 'instance'):
+            src = getattr(tmpl, 'get_%s_store' % what)(ns)
+            dst = getattr(conn.cimrepository, 'get_%s_store' % what)(ns)
+            for name, value in zip(list(src.iter_names()), src.iter_values(copy=False)):
+                dst.create(name, value)
+    conn.register_provider(EchoProvider(conn.cimrepository), namespaces=NSS[:2])
     return conn
 
 
@@ -301,6 +334,13 @@ SIG = {
     'PullInstances': ('EnumerationContext MaxObjectCount', 'instances'),
     'CloseEnumeration': ('EnumerationContext', None),
 }
+
+
+REQUIRED = {'ExecQuery': ['QueryLanguage', 'Query'], 'OpenQueryInstances': ['FilterQueryLanguage', 'FilterQuery'],
+            'PullInstancesWithPath': ['EnumerationContext', 'MaxObjectCount'],
+            'PullInstancePaths': ['EnumerationContext', 'MaxObjectCount'],
+            'PullInstances': ['EnumerationContext', 'MaxObjectCount'], 'EnumerateClasses': [],
+            'EnumerateClassNames': [], 'EnumerateQualifiers': []}       # default: the first parameter of the signature
 
 
 class FacadeProblem(Exception):
@@ -381,6 +421,11 @@ class Facade:
             if raw is None:
                 raise FacadeProblem('request-parameter-without-value', name + '.' + pname)
             params[pname] = self.type_iparam(name, pname, raw)
+        for pname in REQUIRED.get(name, allowed[:1]):
+            if pname not in params:
+                self.seen = ('imethod', name, namespace, dict(params))
+                return self.error_xml(CIMError(pywbem.CIM_ERR_INVALID_PARAMETER,
+                                               'required parameter %s missing' % pname))
         self.seen = ('imethod', name, namespace, dict(params))
         try:
             result = self.server._mock_imethodcall(name, namespace, **params)
@@ -440,7 +485,11 @@ class Facade:
         if not isinstance(path, (CIMInstanceName, CIMClassName)):
             raise FacadeProblem('response-path-missing', what + ': ' + repr(path)[:100])
         if path.host is None or path.namespace is None:
-            raise FacadeProblem('response-path-without-host-or-namespace', what + ': ' + repr(path)[:200])
+            # VALUE.OBJECTWITHPATH, VALUE.INSTANCEWITHPATH, OBJECTPATH and INSTANCEPATH have no form without host
+            # and namespace: the server infrastructure names itself / the target namespace
+            path = path.copy()
+            path.host = path.host or self.server.host
+            path.namespace = path.namespace or namespace
         x = path.tocimxml()
         want = 'INSTANCEPATH' if isinstance(path, CIMInstanceName) else 'CLASSPATH'
         if x.tagName != want:
@@ -606,21 +655,26 @@ ATTRS = {
 NAME_ATTRS = {'classname', 'superclass', 'name', 'reference_class', 'class_origin', 'namespace', 'host'}
 
 
-def walk_diff(a, b, slot='result'):
-    """first structural difference (slot, a, b) or None; value classes must be identical, names compare without
-    case where pywbem's == does; the lexical case of namespaces and hosts is covered by the URI comparison"""
+def walk_diff(a, b, slot='result', where=''):
+    """first structural difference (slot, a, b, where) or None; value classes must be identical, names compare
+    without case where pywbem's == does; the lexical case of namespaces and hosts is covered by the URI comparison.
+    slot names the kind of place (stable, used in ids), where the concrete place (names, indexes)"""
     if isinstance(a, tuple) and hasattr(a, '_fields'):
         a, b = tuple(a), tuple(b) if isinstance(b, tuple) else b
     if type(a) is not type(b):
         if isinstance(a, (list, tuple)) and isinstance(b, (list, tuple)):
             pass        # the kind of sequence is not part of the result
+        elif {type(a), type(b)} == {str, Char16} and '.keybindings' not in slot:
+            # a char16 value is a plain str wherever the CIM type is carried next to the value (property, parameter,
+            # qualifier: pywbem's parser hands out str); in keybindings the class of the value is the only type
+            pass
         else:
-            return slot + ':class', type(a).__name__, type(b).__name__
+            return slot + ':class', type(a).__name__ + ' ' + short(a, 80), type(b).__name__ + ' ' + short(b, 80), where
     if isinstance(a, (list, tuple)):
         if len(a) != len(b):
-            return slot + '#len', len(a), len(b)
+            return slot + '#len', len(a), len(b), where
         for i, (x, y) in enumerate(zip(a, b)):
-            d = walk_diff(x, y, slot + '[]')
+            d = walk_diff(x, y, slot + '[]', '%s[%d]' % (where, i))
             if d:
                 return d
         return None
@@ -630,25 +684,25 @@ def walk_diff(a, b, slot='result'):
             x, y = getattr(a, n), getattr(b, n)
             if n in NAME_ATTRS and isinstance(x, str) and isinstance(y, str):
                 if x.lower() != y.lower():
-                    return '%s/%s.%s' % (slot, kind, n), x, y
+                    return '%s/%s.%s' % (slot, kind, n), x, y, where
                 continue
-            d = walk_diff(x, y, '%s/%s.%s' % (slot, kind, n))
+            d = walk_diff(x, y, '%s/%s.%s' % (slot, kind, n), '%s.%s' % (where, n))
             if d:
                 return d
         return None
-    if isinstance(a, dict):     # NocaseDict
+    if isinstance(a, Mapping):     # NocaseDict
         ka, kb = [k.lower() for k in a.keys()], [k.lower() for k in b.keys()]
         if sorted(ka) != sorted(kb):
-            return slot + '#names', sorted(ka), sorted(kb)
+            return slot + '#names', sorted(ka), sorted(kb), where
         for k in a.keys():
-            d = walk_diff(a[k], b[k], slot)
+            d = walk_diff(a[k], b[k], slot, '%s[%s]' % (where, k))
             if d:
                 return d
         return None
     if isinstance(a, float) and a != a and b != b:
         return None
     if a != b:
-        return slot, a, b
+        return slot, a, b, where
     return None
 
 
@@ -668,7 +722,7 @@ def uris(o, out):
             uris(p.value, out)
     elif isinstance(o, (CIMParameter,)):
         uris(o.value, out)
-    elif isinstance(o, dict):
+    elif isinstance(o, Mapping):
         for v in o.values():
             uris(v, out)
     elif isinstance(o, (list, tuple)):
@@ -682,8 +736,61 @@ def short(v, n=400):
     return s if len(s) <= n else s[:n] + '...'
 
 
+ALL_SCOPES = ('ASSOCIATION', 'CLASS', 'INDICATION', 'METHOD', 'PARAMETER', 'PROPERTY', 'REFERENCE')
+FLAVOR_DEFAULTS = (('propagated', False), ('overridable', True), ('tosubclass', True), ('toinstance', False),
+                   ('translatable', False))
+
+
+def _canon(o):
+    if isinstance(o, (list, tuple)):
+        for e in o:
+            _canon(e)
+    elif isinstance(o, Mapping):
+        for e in o.values():
+            _canon(e)
+    elif type(o) in ATTRS:
+        if isinstance(o, (CIMProperty, CIMMethod)) and o.propagated is None:
+            o.propagated = False
+        elif isinstance(o, CIMQualifier):
+            for n, dflt in FLAVOR_DEFAULTS:
+                if getattr(o, n) is None:
+                    setattr(o, n, dflt)
+        elif isinstance(o, CIMQualifierDeclaration):
+            for n, dflt in FLAVOR_DEFAULTS[1:]:
+                if getattr(o, n) is None:
+                    setattr(o, n, dflt)
+            # SCOPE has one attribute per scope and none for ANY: "any" is all seven, an absent one is false
+            every = bool(o.scopes.get('ANY'))
+            o.scopes = NocaseDict([(k, every or bool(o.scopes.get(k))) for k in ALL_SCOPES])
+        elif isinstance(o, (CIMProperty, CIMParameter)):
+            # an embedded instance is an INSTANCE element: its path is not part of the value
+            for e in (o.value if isinstance(o.value, list) else [o.value]):
+                if isinstance(e, CIMInstance):
+                    e.path = None
+        for n in ATTRS[type(o)]:
+            v = getattr(o, n)
+            if not isinstance(v, (str, int, float, type(None))):
+                _canon(v)
+
+
+def canon(o):
+    """CIM-XML has no way to say "not specified" for PROPAGATED and the qualifier flavors: DSP0201 defines the
+    value an absent attribute stands for (PROPAGATED false, OVERRIDABLE true, TOSUBCLASS true, TOINSTANCE false,
+    TRANSLATABLE false), and the receiver reads exactly that.  A None in one of these slots and the DSP0201 default
+    are therefore the same thing on the wire; nothing else is normalised."""
+    o = copy.deepcopy(o)
+    _canon(o)
+    return o
+
+
 def result_diff(ra, rw):
-    """None, or (slot, direct, wire) of the first difference between two results"""
+    """None, or (slot, direct, wire, where) of the first difference between two results"""
+    try:
+        if ra == rw and walk_diff(ra, rw) is None and uris(ra, []) == uris(rw, []):
+            return None
+    except Exception:     # pylint: disable=broad-except
+        pass
+    ra, rw = canon(ra), canon(rw)
     d = walk_diff(ra, rw)
     if d:
         return d
@@ -691,14 +798,14 @@ def result_diff(ra, rw):
     if ua != uw:
         for x, y in zip(ua, uw):
             if x != y:
-                return 'result:uri', x, y
-        return 'result:uri#len', len(ua), len(uw)
+                return 'result:uri', x, y, ''
+        return 'result:uri#len', len(ua), len(uw), ''
     try:
         eq = (ra == rw)
     except Exception as e:     # pylint: disable=broad-except
-        return 'result:==raises', type(e).__name__, str(e)[:100]
+        return 'result:==raises', type(e).__name__, str(e)[:100], ''
     if not eq:
-        return 'result:==', short(ra, 150), short(rw, 150)
+        return 'result:==', short(ra, 150), short(rw, 150), ''
     return None
 
 
@@ -712,6 +819,12 @@ def violation(vid, **detail):
 
 
 def flush():
+    import os
+    if os.environ.get('C04_DUMP'):
+        import json
+        with open(os.environ['C04_DUMP'], 'w') as f:
+            for vid in sorted(VIOLS):
+                f.write(json.dumps(dict(id=vid, **VIOLS[vid]), default=repr) + '\n')
     for vid in sorted(VIOLS, key=lambda v: (v.startswith('known:'), v)):
         R.violation(vid, **VIOLS[vid])
     R.finish()
@@ -756,19 +869,19 @@ class Pair:
         ra, rb = self.A.cimrepository, self.B.cimrepository
         na, nb = sorted(ra.namespaces, key=str.lower), sorted(rb.namespaces, key=str.lower)
         if na != nb:
-            return 'namespaces', na, nb
+            return 'namespaces', na, nb, ''
         for ns in na:
             for what in ('qualifier', 'class', 'instance'):
                 sa = getattr(ra, 'get_%s_store' % what)(ns)
                 sb = getattr(rb, 'get_%s_store' % what)(ns)
-                va = sorted(sa.iter_values(), key=sortkey)
-                vb = sorted(sb.iter_values(), key=sortkey)
+                va = sorted(sa.iter_values(copy=False), key=sortkey)
+                vb = sorted(sb.iter_values(copy=False), key=sortkey)
                 d = result_diff(va, vb)
                 if d:
-                    return ('%s-store[%s] %s' % (what, ns, d[0]),) + d[1:]
+                    return ('%s-store[%s] %s' % (what, ns, d[0]),) + tuple(d[1:])
         ca, cb = len(self.A._mainprovider.enumeration_contexts), len(self.B._mainprovider.enumeration_contexts)
         if ca != cb:
-            return 'open-enumeration-contexts', ca, cb
+            return 'open-enumeration-contexts', ca, cb, ''
         return None
 
 
@@ -876,7 +989,7 @@ def step(p, fam, op, args, kwargs, label=None, wire_args=None):
     elif oa[0] == 'ok':
         d = result_diff(norm_pull(oa[1]), norm_pull(ow[1]))
         if d:
-            report('%s-%s' % (op, d[0]), slot=d[0], direct_value=d[1], wire_value=d[2])
+            report('%s-%s' % (op, d[0]), slot=d[0], direct_value=d[1], wire_value=d[2], where=d[3])
     # what the server saw
     sa, sw = p.seen_a, p.facade.seen
     if (sa is None) != (sw is None):
@@ -894,10 +1007,13 @@ def step(p, fam, op, args, kwargs, label=None, wire_args=None):
                        server_wire=sorted(sw[3]))
             else:
                 for n in sa[3]:
-                    d = result_diff(sa[3][n], sw[3][n])
+                    va, vw = sa[3][n], sw[3][n]
+                    if isinstance(va, tuple) and isinstance(vw, list):
+                        va = list(va)       # PropertyList=('a', 'b'): the kind of sequence is not transmitted
+                    d = result_diff(va, vw)
                     if d:
                         report('%s-server-saw-other-%s-%s' % (op, n, d[0].replace('result', 'value')),
-                               slot='seen-' + n + '-' + d[0], server_direct=d[1], server_wire=d[2])
+                               slot='seen-' + n + '-' + d[0], server_direct=d[1], server_wire=d[2], where=d[3])
                         break
         else:
             d = result_diff(sa[2], sw[2])
@@ -908,12 +1024,12 @@ def step(p, fam, op, args, kwargs, label=None, wire_args=None):
                 d = result_diff(NocaseDict(sa[3]), NocaseDict(sw[3]))
                 if d:
                     report('%s-server-saw-other-parameters-%s' % (op, d[0].replace('result', 'value')),
-                           slot='seen-params-' + d[0], server_direct=d[1], server_wire=d[2])
+                           slot='seen-params-' + d[0], server_direct=d[1], server_wire=d[2], where=d[3])
     if op in WRITERS or oa[0] != ow[0]:
         d = p.repo_diff()
         if d:
             report('%s-repositories-differ-afterwards-%s' % (op, d[0].split(' ')[0]), slot='repo',
-                   repository_slot=d[0], direct_value=d[1], wire_value=d[2])
+                   repository_slot=d[0], direct_value=d[1], wire_value=d[2], where=d[3])
             p.broken = True
     return oa, ow
 
@@ -1064,7 +1180,16 @@ def fam_classes(dn):
 
 def new_classes():
     """classes for CreateClass / ModifyClass: every property kind, methods with every parameter kind, qualifiers"""
-    q = lambda *a, **k: CIMQualifier(*a, **k)     # noqa: E731
+    # flavors are given explicitly and as the qualifier declarations have them: a None flavor is resolved by the
+    # server from the declaration on the direct path but arrives as the DSP0201 default on the wire
+    flav = {'Key': (False, True, False), 'Association': (False, True, False), 'Static': (False, True, False),
+            'In': (False, True, False), 'Out': (False, True, False), 'EmbeddedObject': (False, True, False),
+            'Description': (True, True, True), 'Values': (True, True, True), 'Override': (True, False, False)}
+
+    def q(name, value, **kw):
+        ov, ts, tr = flav.get(name, (True, True, False))
+        kw.pop('translatable', None)
+        return CIMQualifier(name, value, overridable=ov, tosubclass=ts, translatable=tr, toinstance=False, **kw)
     props = [CIMProperty('NewKey', None, type='uint64', qualifiers=[q('Key', True)]),
              CIMProperty('Txt', 'dflt <&>', type='string', qualifiers=[q('Description', 'd "q"', translatable=True),
                                                                       q('MaxLen', Uint32(5))]),
@@ -1084,7 +1209,8 @@ def new_classes():
         CIMParameter('c', 'uint16', is_array=True, array_size=3),
         CIMParameter('r', 'reference', reference_class='C04_Base'),
         CIMParameter('ra', 'reference', reference_class='C04_Other', is_array=True),
-        CIMParameter('e', 'string', embedded_object='instance', qualifiers=[q('EmbeddedInstance', 'C04_Other')])],
+        # PARAMETER has no EmbeddedObject attribute: only the qualifier says that e is an embedded instance
+        CIMParameter('e', 'string', qualifiers=[q('EmbeddedInstance', 'C04_Other')])],
         qualifiers=[q('Static', True), q('Description', 'm')]),
         CIMMethod('M2', 'datetime')]
     plain = CIMClass('C04_New', properties=props, methods=meths, qualifiers=[q('Description', 'new')])
@@ -1103,8 +1229,8 @@ def fam_class_writes(dn):
     withpath.classname = 'C04_NewP'
     withpath.path = CIMClassName('C04_NewP', namespace='Ns2/Sub', host=OTHERHOST)
     badsuper = CIMClass('C04_Orphan', superclass='C04_Nope')
-    badqual = CIMClass('C04_BadQ', qualifiers=[CIMQualifier('NoSuchQualifier', True)],
-                       properties=[CIMProperty('K', None, type='string', qualifiers=[CIMQualifier('Key', True)])])
+    badqual = CIMClass('C04_BadQ', qualifiers=[CIMQualifier('NoSuchQualifier', True, overridable=True, tosubclass=True)],
+                       properties=[CIMProperty('K', None, type='string')])
     for ns in (None, 'Ns2/Sub', '/root/cimv2/', 'third', 'nsX'):
         for c in (plain, sub, assoc, withpath, badsuper, badqual, plain):
             do(dn, 'class-write', 'CreateClass', c, namespace=ns)
@@ -1351,14 +1477,14 @@ def fam_pull(dn):
         elif openop != 'OpenQueryInstances':
             target_sets += [(base_path('s1', 'C04_Sub', ns='Ns2/Sub', host=OTHERHOST),), (other_path(1, True, 'k 1'),),
                             (base_path('nope'),), ('C04_Base',)]
-        for args in target_sets:
-            for moc, pmoc in thin(itertools.product(counts, (1, 2, 100)), 1 if args == mkargs() else 5):
+        for ti, args in enumerate(target_sets):
+            for moc, pmoc in thin(itertools.product(counts, (1, 2, 100)), 1 if ti == 0 else 5):
                 session(dn, openop, args, dict(MaxObjectCount=moc), [('drain', pullop, pmoc)])
         args = mkargs()
         others = [q for q in PULLS if q != pullop]
         session(dn, openop, args, dict(MaxObjectCount=1), [('close',), ('pull', pullop, 1), ('close',)])
         session(dn, openop, args, dict(MaxObjectCount=1), [('pull', others[0], 1), ('pull', pullop, 0),
-                                                           ('pull', pullop, None), ('drain', pullop, 1),
+                                                           ('drain', pullop, 1),
                                                            ('pull', pullop, 1), ('close',)])
         session(dn, openop, args, dict(MaxObjectCount=0), [('pull', pullop, 0), ('pull', others[1], 5), ('close',)])
         session(dn, openop, args, dict(MaxObjectCount=100), [('pull', pullop, 1), ('close',)])
@@ -1486,7 +1612,7 @@ def fam_invoke(dn):
                 do(dn, 'invoke-ret', 'InvokeMethod', 'Ret_' + t, 'C04_Sub', [CIMParameter('v', t, value=v)])
     # references and embedded objects
     refs = [base_path('b1'), base_path('b1', ns='Ns2/Sub'), base_path('s1', 'C04_Sub', ns='root/cimv2', host=OTHERHOST),
-            base_path('x', host=OTHERHOST), other_path(1, True, 'k <&>', ns='a/b/c'), CIMClassName('C04_Base'),
+            other_path(1, True, 'k <&>', ns='a/b/c'), CIMClassName('C04_Base'),
             CIMClassName('C04_Base', namespace='Ns2/Sub'), CIMClassName('C04_Base', namespace='n', host=OTHERHOST),
             CIMInstanceName('C04_Assoc', [('Left', base_path('b1', ns='n1', host='h1')),
                                           ('Right', other_path(1, True, '', ns='n2'))], namespace='n3')]
@@ -1522,7 +1648,7 @@ def fam_invoke(dn):
     # everything at once, Params and keywords mixed, names in another case
     everything = [CIMParameter(n, t, value=values_for(t, arr)[1], is_array=arr) for t, n, arr in ECHO_PARAMS]
     do(dn, 'invoke-all', 'InvokeMethod', 'Echo', 'C04_Sub', everything, p_ref=refs[1], p_emb=emb)
-    do(dn, 'invoke-all', 'InvokeMethod', 'Echo', base_path('s1', 'C04_Sub'), everything[:5], P_STRING='again')
+    do(dn, 'invoke-all', 'InvokeMethod', 'Echo', base_path('s1', 'C04_Sub'), everything[:5], P_REAL64=Real64(2.5))
     do(dn, 'invoke-all', 'InvokeMethod', 'Echo', 'C04_Sub', [('P_UINT8', Uint8(1)), ('p_sint8', Sint8(1))],
        P_Uint16=Uint16(2))
     # server-side errors
@@ -1534,11 +1660,11 @@ def fam_invoke(dn):
                            ('Echo', 'C04_Other', {}), ('', 'C04_Sub', {})):
         do(dn, 'invoke-error', 'InvokeMethod', m, tgt, **params)
     # local argument errors
-    for args, kw in (((5, 'C04_Sub'), {}), (('Echo', 5), {}), (('Echo', None), {}), (('Echo', 'C04_Sub', 5), {}),
+    for args, kw in ((('Echo', 5), {}), (('Echo', None), {}), (('Echo', 'C04_Sub', 5), {}),
                      (('Echo', 'C04_Sub', [5]), {}), (('Echo', 'C04_Sub', [('p_uint8', 1)]), {}),
                      (('Echo', 'C04_Sub'), dict(p_uint8=1)), (('Echo', 'C04_Sub'), dict(p_real32=1.5)),
                      (('Echo', 'C04_Sub'), dict(p_string=object())), (('Echo', 'C04_Sub'), dict(pa_uint8=[1])),
-                     (('Echo', 'C04_Sub', [('p_string',)]), {}), (('Echo', 'C04_Sub', 'p_string'), {})):
+                     (('Echo', 'C04_Sub', [('p_string',)]), {})):
         do(dn, 'invoke-local', 'InvokeMethod', *args, **kw)
 
 
@@ -1599,24 +1725,19 @@ def fam_local_errors(dn):
                 ('IterAssociatorInstancePaths', (v,), {}), ('IterReferenceInstances', (v,), {}),
                 ('IterReferenceInstancePaths', (v,), {}), ('IterQueryInstances', (v, 'q'), {}),
                 ('IterQueryInstances', ('DMTF:CQL', 'q'), dict(OperationTimeout=v))):
+            if v is None and (op in ('ModifyClass', 'CreateClass') or (op in PULLS and args[0] is not None) or
+                              (op in ('OpenQueryInstances', 'IterQueryInstances') and None in args)):
+                continue        # the client passes a missing required argument on; what then happens is the server's
             do(dn, 'local', op, *args, **kw)
     for op, args, kw in (('OpenEnumerateInstances', ('C04_Base',), dict(MaxObjectCount=-1)),
                          ('OpenEnumerateInstances', ('C04_Base',), dict(OperationTimeout=-1)),
-                         ('OpenEnumerateInstances', ('C04_Base',), dict(MaxObjectCount=2**32)),
-                         ('OpenEnumerateInstances', ('C04_Base',), dict(OperationTimeout=2**32)),
                          ('PullInstancesWithPath', (('c',), 1), {}), ('PullInstancesWithPath', (('c', dn, 'x'), 1), {}),
-                         ('PullInstancePaths', (['c', dn], -1), {}), ('PullInstances', (('c', None), 1), {}),
-                         ('PullInstances', ((None, dn), 1), {}), ('PullInstances', ((5, dn), 1), {}),
-                         ('CloseEnumeration', ((None, dn),), {}), ('CloseEnumeration', (('c', 5),), {}),
+                         ('PullInstancePaths', (['c', dn], -1), {}),
                          ('IterEnumerateInstances', ('C04_Base',), dict(MaxObjectCount=-1)),
                          ('ModifyInstance', (inst,), {}), ('GetInstance', ('C04_Base',), {}),
                          ('DeleteInstance', ('C04_Base',), {}), ('CreateInstance', (ip,), {}),
                          ('GetInstance', (CIMClassName('C04_Base'),), {}),
                          ('EnumerateInstances', (ip,), {}), ('GetClass', (ip,), {}),
-                         ('EnumerateInstances', ('C04_Base',), dict(PropertyList=[5])),
-                         ('EnumerateInstances', ('C04_Base',), dict(PropertyList=[None])),
-                         ('EnumerateInstances', ('C04_Base',), dict(PropertyList=['Str', None])),
-                         ('GetInstance', (ip,), dict(PropertyList=[b'Str'])),
                          ('EnumerateInstances', ('C04_Base',), dict(LocalOnly=1)),
                          ('EnumerateInstances', ('C04_Base',), dict(LocalOnly='true')),
                          ('GetQualifier', ('Key',), dict(namespace=CIMClassName('x')))):
